@@ -74,6 +74,24 @@ func (o *AliasOptimizer) Optimize(rules []*config_parser.RoutingRule) ([]*config
 type MergeAndSortRulesOptimizer struct {
 }
 
+// sameOutbound reports whether two outbounds are written identically: name, negation and every
+// parameter. Function.String must not be used for this comparison: it elides everything after
+// the fifth parameter, so outbounds differing only in a later parameter would compare equal.
+func sameOutbound(a, b *config_parser.Function) bool {
+	if a.Name != b.Name || a.Not != b.Not || len(a.Params) != len(b.Params) {
+		return false
+	}
+	for i, pa := range a.Params {
+		pb := b.Params[i]
+		if pa.Key != pb.Key || pa.Val != pb.Val ||
+			len(pa.AndFunctions) != 0 || len(pb.AndFunctions) != 0 ||
+			len(pa.Annotation) != 0 || len(pb.Annotation) != 0 {
+			return false
+		}
+	}
+	return true
+}
+
 func (o *MergeAndSortRulesOptimizer) Optimize(rules []*config_parser.RoutingRule) ([]*config_parser.RoutingRule, error) {
 	if len(rules) == 0 {
 		return rules, nil
@@ -94,7 +112,7 @@ func (o *MergeAndSortRulesOptimizer) Optimize(rules []*config_parser.RoutingRule
 			// Only non-negated conditions can be merged: f(A) || f(B) == f(A, B), whereas
 			// !f(A) || !f(B) is not !f(A, B).
 			!mergingRule.AndFunctions[0].Not && !rules[i].AndFunctions[0].Not &&
-			rules[i].Outbound.String(true, false, true) == mergingRule.Outbound.String(true, false, true) {
+			sameOutbound(&rules[i].Outbound, &mergingRule.Outbound) {
 			mergingRule.AndFunctions[0].Params = append(mergingRule.AndFunctions[0].Params, rules[i].AndFunctions[0].Params...)
 		} else {
 			newRules = append(newRules, mergingRule)
